@@ -2,7 +2,11 @@
 use pyo3_stub_gen::derive::gen_stub_pyclass;
 
 use super::{Qubit, QuotedString};
-use crate::{expression::Expression, pickleable_new, quil::Quil};
+use crate::{
+    expression::{Expression, PrefixOperator},
+    pickleable_new,
+    quil::Quil,
+};
 
 #[derive(Clone, Debug, PartialEq, Eq, Hash)]
 #[cfg_attr(feature = "stubs", gen_stub_pyclass)]
@@ -50,11 +54,13 @@ impl Quil for Delay {
         let reads_as_qubits = self.frame_names.is_empty()
             && match &self.duration {
                 Expression::Number(value) => value.re != 0f64 && value.im != 0f64,
-                Expression::Variable(_) | Expression::Prefix(_) => false,
+                // A prefix plus is not written, so its operand comes first.
+                Expression::Prefix(prefix) => prefix.operator == PrefixOperator::Plus,
                 Expression::Address(_)
                 | Expression::FunctionCall(_)
                 | Expression::Infix(_)
-                | Expression::PiConstant() => true,
+                | Expression::PiConstant()
+                | Expression::Variable(_) => true,
             };
         if reads_as_qubits {
             write!(writer, "(")?;
